@@ -23,18 +23,18 @@ theorem not_caught_of_uncaught {cfg : Cfg} {g : G} {e : Exc} (h : Uncaught cfg g
   unfold Caught; unfold Uncaught at h
   rcases h with h | h | h <;> simp [h]
 
-theorem exitCore_none (logF) (cfg : Cfg) (d : Bool) (g : G) :
+theorem exitCore_none (logF) (cfg : Cfg) (d : Nat) (g : G) :
     exitCore logF cfg d none g = (.propagate, g) := by
   simp [exitCore, Gen.exitTests, fires]
 
-theorem exitCore_uncaught (logF) (cfg : Cfg) (d : Bool) (e : Exc) (g : G) (h : Uncaught cfg g e) :
+theorem exitCore_uncaught (logF) (cfg : Cfg) (d : Nat) (e : Exc) (g : G) (h : Uncaught cfg g e) :
     exitCore logF cfg d (some e) g = (.propagate, g) := by
   unfold Uncaught at h
   rcases h with h | h | h <;> simp [exitCore, Gen.exitTests, fires, h]
 
-theorem exitCore_caught (logF) (cfg : Cfg) (d : Bool) (e : Exc) (g : G) (h : Caught cfg g e) :
+theorem exitCore_caught (logF) (cfg : Cfg) (d : Nat) (e : Exc) (g : G) (h : Caught cfg g e) :
     exitCore logF cfg d (some e) g =
-      match logF cfg.level (if d then Gen.depthIncr else 0) e { g with flag := true } with
+      match logF cfg.level d e { g with flag := true } with
       | (lr, g2) =>
         match lr with
         | some x' => (.raise x', { g2 with flag := false })
@@ -51,7 +51,7 @@ theorem exitCore_caught (logF) (cfg : Cfg) (d : Bool) (e : Exc) (g : G) (h : Cau
   unfold exitCore
   rw [hany]
   simp only [Bool.false_eq_true, if_false, Gen.exitReturn]
-  generalize logF cfg.level (if d then Gen.depthIncr else 0) e { g with flag := true } = r
+  generalize logF cfg.level d e { g with flag := true } = r
   obtain ⟨lr, g2⟩ := r
   cases lr with
   | some x' => rfl
@@ -64,11 +64,11 @@ theorem exitCore_caught (logF) (cfg : Cfg) (d : Bool) (e : Exc) (g : G) (h : Cau
       | some x' => rfl
       | none => cases cfg.reraise <;> rfl
 
-theorem exitN_none (n : Nat) (env : Env) (cfg : Cfg) (d : Bool) (g : G) :
+theorem exitN_none (n : Nat) (env : Env) (cfg : Cfg) (d : Nat) (g : G) :
     exitN n env cfg d none g = (.propagate, g) := by
   cases n <;> simp [exitN, exitCore_none]
 
-theorem exitN_uncaught (n : Nat) (env : Env) (cfg : Cfg) (d : Bool) (e : Exc) (g : G) (h : Uncaught cfg g e) :
+theorem exitN_uncaught (n : Nat) (env : Env) (cfg : Cfg) (d : Nat) (e : Exc) (g : G) (h : Uncaught cfg g e) :
     exitN n env cfg d (some e) g = (.propagate, g) := by
   cases n <;> simp [exitN, exitCore_uncaught _ _ _ _ _ h]
 
@@ -110,12 +110,12 @@ theorem logCall_guarded (exitF : ExitF) (env : Env) (l d : Nat) (e : Exc) (g : G
   simp [G.push]
 
 /-- the world after a handled exception, up to the `onerror` call -/
-def afterLog (env : Env) (cfg : Cfg) (d : Bool) (e : Exc) (g : G) : G :=
+def afterLog (env : Env) (cfg : Cfg) (d : Nat) (e : Exc) (g : G) : G :=
   { flag := false,
-    trace := g.trace ++ [.log cfg.level e (if d then Gen.depthIncr else 0)] ++ env.probes.map (fun p => .probe p.out) }
+    trace := g.trace ++ [.log cfg.level e d] ++ env.probes.map (fun p => .probe p.out) }
 
 /-- closed form of `__exit__` for a handled exception -/
-def caughtResult (env : Env) (cfg : Cfg) (d : Bool) (e : Exc) (g : G) : ExitRes × G :=
+def caughtResult (env : Env) (cfg : Cfg) (d : Nat) (e : Exc) (g : G) : ExitRes × G :=
   match env.logRaises e with
   | some x => (.raise x, afterLog env cfg d e g)
   | none =>
@@ -126,7 +126,7 @@ def caughtResult (env : Env) (cfg : Cfg) (d : Bool) (e : Exc) (g : G) : ExitRes 
       | some x => (.raise x, (afterLog env cfg d e g).push (.onerror e))
       | none => (if cfg.reraise then .propagate else .suppress, (afterLog env cfg d e g).push (.onerror e))
 
-theorem exitN_caught (n : Nat) (env : Env) (cfg : Cfg) (d : Bool) (e : Exc) (g : G) (h : Caught cfg g e) :
+theorem exitN_caught (n : Nat) (env : Env) (cfg : Cfg) (d : Nat) (e : Exc) (g : G) (h : Caught cfg g e) :
     exitN n env cfg d (some e) g = caughtResult env cfg d e g := by
   have key : ∀ exitF : ExitF,
       (∀ c d g, exitF c d none g = (.propagate, g)) →
